@@ -359,6 +359,7 @@ def strat_stable(tier):
       gain=st.one_of(st.just(Q(1)), st.just(Q(-1)), _gain.map(Q), _gain.map(Q)),
       zeros=st.lists(st.fractions(min_value=-2, max_value=2, max_denominator=4).map(Q), max_size=2),
       ngain=_gain.map(Q),
+      numtype=st.sampled_from(["Q", "Q", "Fraction"]),
       route=st.sampled_from(_SROUTES)))
   return st.sampled_from(["inside"] * 8 + ["on"] * 4 + ["outside"] * 4 + ["mixed"] * 2 + ["none"]).flatmap(case)
 
@@ -366,6 +367,9 @@ def strat_stable(tier):
 def build_stable_case(case):
   """(filter, exact denominator coefficients, verdict, labels) of a stability case."""
   g = fr(case["gain"])
+  # plain Fractions as well as Q: with Q every float constant in the code is absorbed exactly,
+  # with plain Fractions a float literal creeping into the recursion turns it into floats
+  T = Fraction if case.get("numtype") == "Fraction" else Q
   factors = []
   inside = []
   labels = []
@@ -400,24 +404,25 @@ def build_stable_case(case):
       continue
     nfac.append([Fraction(1), -s])
     num = polymul(num, [Fraction(1), -s])
-  qd = [Q(c) for c in den]
-  qn = [Q(c) for c in num]
+  qd = [T(c) for c in den]
+  qn = [T(c) for c in num]
   route = case["route"]
   if route == "list":
     filt = ZFilter(qn, qd)
   elif route == "recip":
     filt = ZFilter(qn) / ZFilter(qd)
   elif route == "expr":
-    dfilt = ZFilter(Q(g))
+    dfilt = ZFilter(T(g))
     for fac in factors:
-      dfilt = dfilt * sum((Q(c) * z ** -i for i, c in enumerate(fac) if i), ZFilter(Q(fac[0])))
-    nfilt = ZFilter(Q(num[0])) if not nfac else ZFilter(qn)
+      dfilt = dfilt * sum((T(c) * z ** -i for i, c in enumerate(fac) if i), ZFilter(T(fac[0])))
+    nfilt = ZFilter(T(num[0])) if not nfac else ZFilter(qn)
     filt = nfilt / dfilt
   elif route == "cascade":
-    secs = [ZFilter(qn, [Q(g)])] + [ZFilter([Q(1)], [Q(c) for c in fac]) for fac in factors]
+    secs = [ZFilter(qn, [T(g)])] + [ZFilter([T(1)], [T(c) for c in fac]) for fac in factors]
     filt = CascadeFilter(secs)
   else:
     raise AssertionError(route)
+  labels.append("numbers:" + ("Fraction" if T is Fraction else "Q"))
   return filt, den, all(inside), labels
 
 
